@@ -293,11 +293,27 @@ impl<T: BinaryDeserializer, const L: usize> BinaryDeserializer for [T; L] {
         if cast!(empty, [u8; 0]).is_ok() {
             let length = context.read_var_u32()?; // NOTE: this is inconsistent with the generic case, but this way it is compatible with the Scala version's Chunk serializer
             let bytes = context.read_bytes(length as usize)?;
-            Ok(unsafe { std::mem::transmute_copy::<_, [T; L]>(&bytes) })
+            // the stored length must be exactly L; copy the bytes, not the slice reference
+            let bytes: &[u8; L] = bytes.try_into()?;
+            Ok(unsafe { std::mem::transmute_copy::<[u8; L], [T; L]>(bytes) })
         } else {
             let mut array: [MaybeUninit<T>; L] = unsafe { MaybeUninit::uninit().assume_init() };
-            for (target, item) in array.iter_mut().zip(deserialize_iterator(context)) {
-                *target = MaybeUninit::new(item?);
+            let mut items = deserialize_iterator(context);
+            for target in array.iter_mut() {
+                match items.next() {
+                    Some(item) => *target = MaybeUninit::new(item?),
+                    None => {
+                        return Err(Error::DeserializationFailure(format!(
+                            "Failed to deserialize array: fewer than {L} elements"
+                        )))
+                    }
+                }
+            }
+            if let Some(extra) = items.next() {
+                extra?;
+                return Err(Error::DeserializationFailure(format!(
+                    "Failed to deserialize array: more than {L} elements"
+                )));
             }
             let array: [T; L] = unsafe { std::mem::transmute_copy(&array) };
             Ok(array)
